@@ -1,2 +1,4 @@
 pub mod c08;
 pub mod cpu;
+pub mod c09;
+pub mod c05;
